@@ -48,6 +48,12 @@ def check_tmp(ctx):
             n += 1
             st = A.enclosing_stmt(c)
             label = "temp file created by `%s`" % A.unparse(st)[:70]
+            if (A.call_name(c) or "").split(".")[-1] == "mkstemp":
+                # mkstemp hands back an OPEN descriptor: it has to be closed (os.close / os.fdopen) by the code that asked for it
+                fd = st.targets[0].elts[0] if isinstance(st, ast.Assign) and isinstance(st.targets[0], ast.Tuple) and st.targets[0].elts else None
+                closed = isinstance(fd, ast.Name) and any((A.call_name(x) or "") in ("os.close", "os.fdopen", "open") and x.args and canon(x.args[0]) == fd.id for x in A.calls_in(fn))
+                ctx.check(R, c, label + ": descriptor closed", bool(closed), "mkstemp's open file descriptor is dropped (`%s`): every call leaks one descriptor, until the process runs out of them" % A.unparse(st)[:60], key="mkstemp-fd:" + q)
+                continue
             if not (isinstance(st, ast.Assign) and isinstance(st.targets[0], ast.Name) and st.value is c):
                 if isinstance(A.parent(c), ast.withitem):
                     ctx.ok(R, c, label, "context-managed temporary file")
@@ -113,7 +119,7 @@ def check_tmp(ctx):
                           "handler swallows the exception of the wrapped call", key="handler:" + (canon(h.type) if h.type else "bare"))
             # the wrapped call and the cache write are inside the try body
             body_calls = [A.unparse(x.func) for s in tr.body for x in A.calls_in(s)]
-            ctx.check(R, tr, "cache write and wrapped call inside the try", any(x.endswith(".write") for x in body_calls) and "func" in body_calls,
+            ctx.check(R, tr, "cache write and wrapped call inside the try", any(x.endswith(".write") for x in body_calls) and ("func" in body_calls or fn.name in body_calls),   # (re-entering the wrapper with the file name reaches the same `func` call)
                       "try body calls %s: the cache write or the wrapped call is not protected" % body_calls, key="body")
     ctx.floor(R, n, 1)
 
